@@ -282,6 +282,10 @@ PINS = [
     ("pinInitialState", "Init", "src/program.rs", "pub fn initial_state(&self)"),
     ("pinStepWithOutput", "Step", "src/program.rs", "pub fn step_with_output<W: Write>"),
     ("pinRun", "Run", "src/program.rs", "pub fn run<W: Write>"),
+    ("pinSetTimeout", "Run", "src/program.rs", "pub fn set_timeout(&mut self, new_timeout: u32)"),
+    ("pinStatusOrDefault", "Run", "src/program.rs", "pub fn status_or_default(&self, default: u8)"),
+    ("pinHalted", "Run", "src/program.rs", "pub fn halted(&self)"),
+    ("pinTimedOut", "Run", "src/program.rs", "pub fn timed_out(&self)"),
     ("pinMarkNewlines", "Io", "src/io.rs", "fn mark_newlines(offset"),
     ("pinFilename", "Io", "src/io.rs", "pub fn filename(&self, index: usize)"),
     ("pinLineNumberAndBounds", "Io", "src/io.rs", "pub fn line_number_and_bounds(&self, index: usize)"),
@@ -295,6 +299,7 @@ PINS = [
     ("pinFormatForContents", "Errors", "src/errors.rs", "pub fn format_for_contents<W: Write>"),
     ("pinFormatTokenList", "Errors", "src/errors.rs", "fn format_token_list(tokens"),
     ("pinListWithAnd", "Errors", "src/errors.rs", "fn list_with_and<"),
+    ("pinFindCloseNames", "Errors", "src/errors.rs", "pub fn find_close_names_in<"),
     ("pinAsWidth", "Value", "src/ast.rs", "pub fn as_width(self, new_width: WireWidth)"),
     ("pinValueOp", "Value", "src/ast.rs", "pub fn op<F>(self, other: WireValue"),
     ("pinGrammarFile", "Grammar", "src/parser.lalrpop", "FILE"),
